@@ -127,6 +127,16 @@ func c18Case(r *obs.Run, i int) {
 						r.Violate("phred-roundtrip", fmt.Sprintf("containers starting at %d, middle position holding %d under %s: quality.Phred decode(QEncode)=%d At=%d EAt=%g, linear.QSeq decode(QEncode)=%d At=%d EAt=%g", off, q, encNames[e], g1, php.At(off+1), php.EAt(off+1), g2, qsp.At(off+1).Q, qsp.EAt(off+1)),
 							c18w{"placed-container-roundtrip", q, encNames[e], []int{int(g1), int(g2)}, q})
 					}
+					// ... and its FASTQ rendering, whole and cut short by a precision
+					want3 := string([]byte{byte(7 + phredOffset(e)), byte(q + phredOffset(e)), byte(9 + phredOffset(e))})
+					if lines := strings.Split(fmt.Sprintf("%q", qsp), "\n"); len(lines) < 4 || lines[3] != want3 {
+						r.Violate("phred-encode-byte", fmt.Sprintf("linear.QSeq starting at %d: %%q rendering of the scores 7,%d,9 under %s is %q, want the quality line %q", off, q, encNames[e], lines, want3),
+							c18w{"linear.QSeq-%q-placed", q, encNames[e], lines, want3})
+					}
+					if lines := strings.Split(fmt.Sprintf("%.2q", qsp), "\n"); len(lines) < 4 || !strings.HasPrefix(lines[3], want3[:2]) {
+						r.Violate("phred-encode-byte", fmt.Sprintf("linear.QSeq starting at %d: %%.2q rendering of the scores 7,%d,9 under %s is %q, want a quality line starting %q", off, q, encNames[e], lines, want3[:2]),
+							c18w{"linear.QSeq-%.2q-placed", q, encNames[e], lines, want3[:2]})
+					}
 					r.Count("placed_container_checks", 1)
 				}
 				// the string rendering of the score container carries the same byte, also when the encoding was set afterwards
